@@ -823,7 +823,8 @@ def _judge_ctf(label, snap, res, exc):
     same_base = len({(c[0], tuple(map(tuple, c[1]))) for c in query}) != len({c[0] for c in query}) or \
         len({a[0] for a in anc_union}) < len(anc_union)
     observed = {c[0]: c[2] for c in valued if c[0] not in {i for i, _ in c[1]}}
-    two_values = any(i in observed and bool(observed[i]) != bool(s) for c in query for i, s in c[1])
+    contradicted = [(i, bool(s)) for c in query for i, s in c[1] if i in observed and bool(observed[i]) != bool(s)]
+    two_values = False
     # one variable set to both values by different conjuncts: when the two settings reach DIFFERENT c-components of
     # the ancestral graph each ctf-factor is consistent and y0 answers -- with an expression over names that cannot
     # say which value is meant (listed); when they meet in ONE c-component the factor is inconsistent and the
@@ -839,6 +840,12 @@ def _judge_ctf(label, snap, res, exc):
     for i in {i for (i, _) in reach}:
         plus, minus = reach.get((i, True), set()), reach.get((i, False), set())
         if plus and minus and not (plus & minus):
+            two_values = True
+    # the same for a variable OBSERVED at one value and set to the other by a subscript: listed only when the observed
+    # variable and the variables carrying that subscript sit in different c-components (inside one c-component the
+    # counterfactual factor is inconsistent by Definition 4.1 and the procedure must fail - an answer is a new violation)
+    for i, sgn in contradicted:
+        if dist_of.get(i) not in reach.get((i, sgn), set()):
             two_values = True
     summed = {a[0] for a in anc_union} - {c[0] for c in query}
     if label == "ctfTR":
